@@ -94,6 +94,68 @@ _Bool __CPROVER_uninterpreted_poweq(uint64_t, uint64_t, uint64_t, uint64_t, uint
 #define SPECP_issquare(n) __CPROVER_uninterpreted_issquare((uint64_t)(n))
 #endif
 
+/* structural obligations (-DLL2C_UF_DIV=1 / -DLL2C_UF_FP=1): integer division / remainder by a non-constant divisor, resp. the four floating-point
+   operators, are uninterpreted functions on BOTH sides (translated code and contract text): the obligation then states that the code applies
+   the raw operator to exactly the stated operands, for every meaning of the operator, hence for the machine's; the duplicated divider /
+   IEEE multiplier that no back end equates (DESIGN 4.1) disappears.  Operand overflow / division by zero stay bit-precise assertions. */
+#if defined(VF_CBMC) && defined(LL2C_UF_DIV)
+int64_t __CPROVER_uninterpreted_sdiv64(int64_t, int64_t); int64_t __CPROVER_uninterpreted_srem64(int64_t, int64_t);
+uint64_t __CPROVER_uninterpreted_udiv64b(uint64_t, uint64_t); uint64_t __CPROVER_uninterpreted_urem64b(uint64_t, uint64_t);
+int32_t __CPROVER_uninterpreted_sdiv32(int32_t, int32_t); int32_t __CPROVER_uninterpreted_srem32(int32_t, int32_t);
+uint32_t __CPROVER_uninterpreted_udiv32(uint32_t, uint32_t); uint32_t __CPROVER_uninterpreted_urem32(uint32_t, uint32_t);
+#define LL2C_SDIV64(x, y) __CPROVER_uninterpreted_sdiv64((int64_t)(x), (int64_t)(y))
+#define LL2C_SREM64(x, y) __CPROVER_uninterpreted_srem64((int64_t)(x), (int64_t)(y))
+#define LL2C_SDIV32(x, y) __CPROVER_uninterpreted_sdiv32((int32_t)(x), (int32_t)(y))
+#define LL2C_SREM32(x, y) __CPROVER_uninterpreted_srem32((int32_t)(x), (int32_t)(y))
+#define LL2C_UDIV32(x, y) __CPROVER_uninterpreted_udiv32((uint32_t)(x), (uint32_t)(y))
+#define LL2C_UREM32(x, y) __CPROVER_uninterpreted_urem32((uint32_t)(x), (uint32_t)(y))
+#ifndef LL2C_UF_ARITH
+#define LL2C_UMUL64(x, y) ((uint64_t)((uint64_t)(x) * (uint64_t)(y)))
+#define LL2C_UMULOVF64(x, y) __CPROVER_overflow_mult((uint64_t)(x), (uint64_t)(y))
+#define LL2C_UDIV64(x, y) __CPROVER_uninterpreted_udiv64b((uint64_t)(x), (uint64_t)(y))
+#define LL2C_UREM64(x, y) __CPROVER_uninterpreted_urem64b((uint64_t)(x), (uint64_t)(y))
+#endif
+#endif
+#if defined(VF_CBMC) && defined(LL2C_UF_FP)
+float __CPROVER_uninterpreted_fadd32(float, float); float __CPROVER_uninterpreted_fsub32(float, float);
+float __CPROVER_uninterpreted_fmul32(float, float); float __CPROVER_uninterpreted_fdiv32(float, float);
+double __CPROVER_uninterpreted_fadd64(double, double); double __CPROVER_uninterpreted_fsub64(double, double);
+double __CPROVER_uninterpreted_fmul64(double, double); double __CPROVER_uninterpreted_fdiv64(double, double);
+#define LL2C_FADD32(x, y) __CPROVER_uninterpreted_fadd32((float)(x), (float)(y))
+#define LL2C_FSUB32(x, y) __CPROVER_uninterpreted_fsub32((float)(x), (float)(y))
+#define LL2C_FMUL32(x, y) __CPROVER_uninterpreted_fmul32((float)(x), (float)(y))
+#define LL2C_FDIV32(x, y) __CPROVER_uninterpreted_fdiv32((float)(x), (float)(y))
+#define LL2C_FADD64(x, y) __CPROVER_uninterpreted_fadd64((double)(x), (double)(y))
+#define LL2C_FSUB64(x, y) __CPROVER_uninterpreted_fsub64((double)(x), (double)(y))
+#define LL2C_FMUL64(x, y) __CPROVER_uninterpreted_fmul64((double)(x), (double)(y))
+#define LL2C_FDIV64(x, y) __CPROVER_uninterpreted_fdiv64((double)(x), (double)(y))
+#endif
+/* default meaning of the operator macros (every other obligation, and the native replay): the C operators themselves */
+#ifndef LL2C_UMUL64
+#define LL2C_UMUL64(x, y) ((uint64_t)((uint64_t)(x) * (uint64_t)(y)))
+#define LL2C_UMULOVF64(x, y) VF_MUL_OVF(uint64_t, x, y)
+#define LL2C_UDIV64(x, y) ((uint64_t)((uint64_t)(x) / (uint64_t)(y)))
+#define LL2C_UREM64(x, y) ((uint64_t)((uint64_t)(x) % (uint64_t)(y)))
+#endif
+#ifndef LL2C_SDIV64
+#define LL2C_SDIV64(x, y) ((int64_t)((int64_t)(x) / (int64_t)(y)))
+#define LL2C_SREM64(x, y) ((int64_t)((int64_t)(x) % (int64_t)(y)))
+#define LL2C_UDIV32(x, y) ((uint32_t)((uint32_t)(x) / (uint32_t)(y)))
+#define LL2C_UREM32(x, y) ((uint32_t)((uint32_t)(x) % (uint32_t)(y)))
+#define LL2C_SDIV32(x, y) ((int32_t)((int32_t)(x) / (int32_t)(y)))
+#define LL2C_SREM32(x, y) ((int32_t)((int32_t)(x) % (int32_t)(y)))
+#endif
+#ifndef LL2C_FMUL64
+#define LL2C_FADD32(x, y) ((float)((float)(x) + (float)(y)))
+#define LL2C_FSUB32(x, y) ((float)((float)(x) - (float)(y)))
+#define LL2C_FMUL32(x, y) ((float)((float)(x) * (float)(y)))
+#define LL2C_FDIV32(x, y) ((float)((float)(x) / (float)(y)))
+#define LL2C_FADD64(x, y) ((double)((double)(x) + (double)(y)))
+#define LL2C_FSUB64(x, y) ((double)((double)(x) - (double)(y)))
+#define LL2C_FMUL64(x, y) ((double)((double)(x) * (double)(y)))
+#define LL2C_FDIV64(x, y) ((double)((double)(x) / (double)(y)))
+#endif
+
 #ifdef VF_CBMC
 static uint64_t vf_ghost[8];   /* entry values of the function under contract, for loop invariants that relate the loop state to them */
 #define ASSUME(c) __CPROVER_assume(c)
